@@ -8,6 +8,9 @@ import AfkakProofs.Group.Compose
 import AfkakProofs.Group.StopCalled
 import AfkakProofs.Group.JoinLast
 import AfkakProofs.Group.JoinIds
+import AfkakProofs.Group.LeaveDrain
+import AfkakProofs.Group.ComposedBase
+import AfkakProofs.Group.ComposedFenced
 import AfkakProps.Open.C16
 /-!
 # C16 — generation fencing: no partition consumer outlives its group generation
@@ -180,6 +183,49 @@ theorem C16_commit_fencing (cfg : Cfg) (evs : List Ev) (c : Con) (hc : c ∈ (fi
 /-- the extractor found the three source facts `C16_commit_fencing` rests on -/
 theorem C16_commit_identity_source : groupCommitIdentityFixed = true := by decide
 
+
+/-! ## Composition with the partition consumers' requests (`Afkak.GroupCompose`)
+
+The product of the group model with the consumers' interface: besides the group's events, consumer
+`cid` sends a fetch (`conFetch cid`) or an offset commit (`conCommit cid`, tagged with the generation
+and member id of ITS record — the `Consumer` object's construction-time attributes); a consumer
+event is enabled while that consumer is running or draining (the consumer package's guarantee: a
+stopped `Consumer` has nothing outstanding and no timer, `C13_stop_leaves_nothing_fetching`,
+`C13_stop_leaves_no_timer`).  The three monitors below are evaluated by the driver on the composed
+traces of the full-stack stage (every fetch / commit call of every real partition consumer recorded
+between the group's events); here they are proved of EVERY product run. -/
+open Afkak.GroupCompose in
+/-- Every commit request a partition consumer issues carries the generation and member id of its
+    `consumerStart` observation — the generation in which it was started (monitor
+    `composedCommitIds` on every product run). -/
+theorem C16_composed_commit_ids (cfg : Cfg) (evs : List PEv) : composedCommitIds (prun cfg evs) = true :=
+  composedCommitIds_run cfg evs
+
+open Afkak.GroupCompose in
+/-- Every fetch / commit request comes from a consumer that is running or draining in the snapshot
+    before it — none from a consumer the group has stopped or whose shutdown has completed (monitor
+    `composedLive`; on product runs this is the enabling condition, on the code it is what the
+    full-stack stage checks of the real `Consumer`). -/
+theorem C16_composed_live (cfg : Cfg) (evs : List PEv) : composedLive (prun cfg evs) = true :=
+  composedLive_run cfg evs
+
+open Afkak.GroupCompose in
+/-- Generation fencing end to end: a consumer that had been started when the member sent a JoinGroup
+    request (so: started in an earlier generation than the one that join asks for) issues no fetch
+    and no commit after that JoinGroup (monitor `composedFenced` on every product run: when the join
+    goes out every consumer has stopped — `C16_join_after_drain` — and stopped is for ever). -/
+theorem C16_composed_fenced (cfg : Cfg) (evs : List PEv) : composedFenced (prun cfg evs) = true :=
+  composedFenced_run cfg evs
+
+/-- Once `Coordinator.stop` has begun (the LeaveGroup is sent by it), every partition consumer has
+    stopped — unless the join coroutine is in the middle of its own `on_join_prepare` drain or
+    a `ConsumerGroup.stop` is still waiting for consumers (reachable only through the nested stop of a
+    fatal error: the two known findings; see `C16_leave_after_drain_counterexample`). -/
+theorem C16_leave_after_drain_partial (cfg : Cfg) (evs : List Ev) (h1 : (final cfg evs).stopping = true)
+    (h2 : (final cfg evs).jpc ≠ .prepare) (h3 : (final cfg evs).stops = []) :
+    ∀ c ∈ (final cfg evs).cons, c.phase = .stopped :=
+  stopping_all_stopped cfg evs h1 h2 h3
+
 def exCfg : Cfg := { initialBackoffMs := 1000, retryBackoffMs := 125, fatalBackoffMs := 10000, heartbeatMs := 5000 }
 
 /-! Non-vacuity: a reachable state with running consumers of generation 5, one with a join in
@@ -214,6 +260,32 @@ theorem C16_graceful_drain_counterexample : ¬ Open.C16_graceful_drain := by
   revert this
   decide +kernel
 
+/-- "The member leaves only when no consumer is live" is FALSE of the code: a stable member with two
+    consumers; `stop()` starts draining them; consumer 0 fails with a non-Kafka error; the nested
+    `self.stop(error)` of `rejoin_after_error` is not refused, finds `self.consumers` empty and sends
+    the LeaveGroup while consumer 1 is still draining (known finding
+    `fatal-error-stop-leaves-while-stop-drains`; the same for a second USER `stop()` was a defect and
+    is fixed: `userStop` refuses it). -/
+theorem C16_leave_after_drain_counterexample : ¬ Open.C16_leave_after_drain := by
+  intro h
+  have := h exCfg (exStable ++ [.stop, .consumerErr 0 .nonKafka])
+  revert this
+  decide +kernel
+
+/-! Non-vacuity of `C16_leave_after_drain_partial` (an ordinary stop: drained, leave sent) and of the
+composed theorems (a product run with real requests: fetch and commit of a running consumer, the
+commit of a draining one during the rebalance, and a refused one after it stopped). -/
+example : (final exCfg (exStable ++ [.stop, .consumerDown 0 true, .consumerDown 1 true])).stopping = true ∧
+    (final exCfg (exStable ++ [.stop, .consumerDown 0 true, .consumerDown 1 true])).jpc ≠ .prepare ∧
+    (final exCfg (exStable ++ [.stop, .consumerDown 0 true, .consumerDown 1 true])).stops = [] ∧
+    (final exCfg (exStable ++ [.stop, .consumerDown 0 true, .consumerDown 1 true])).leaveWait.isSome = true := by decide +kernel
+
+open Afkak.GroupCompose in
+example : ((prun exCfg (exStable.map .grp ++ [.conFetch 0, .conCommit 1, .grp (.advance 5), .grp (.fire 0 none),
+      .grp (.hbDone (.err .rebalanceInProgress)), .grp (.advance 1), .grp (.fire 2 none), .grp (.coordDone .ok), .grp (.metaDone .ok),
+      .conCommit 0, .grp (.consumerDown 0 true), .conCommit 0])).flatMap (·.reqs)) =
+    [.fetch 0, .commit 1 (some 5) 1, .commit 0 (some 5) 1, .refused] := by decide +kernel
+
 /-! Non-vacuity of the composition: the first consumer of `exStable`, behaving as a consumer-model run
 that processes offset 42 and auto-commits it, puts exactly one commit on the wire — with generation 5,
 member 1, its own partition. -/
@@ -247,8 +319,14 @@ C16_strict_after_stop_counterexample
 C16_graceful_drain_counterexample
 C16_no_join_after_stop_called
 C16_starts_with_join_ids
+C16_composed_commit_ids
+C16_composed_live
+C16_composed_fenced
+C16_leave_after_drain_partial
+C16_leave_after_drain_counterexample
 -/
 /- OPEN_STATEMENTS
 C16_after_stop_called_only_leave
 C16_graceful_drain
+C16_leave_after_drain
 -/
